@@ -50,7 +50,9 @@ POOLS = {
                             'alike': [1, 2, 3, 2.0], 'invalid': ['DEFAULT', None, 7]},
     'place': {'valid': ['E:BeartypeDecorPlace.FIRST', 'E:BeartypeDecorPlace.LAST', 'E:BeartypeDecorPlace.LAST_BEFORE_DECOR_HOSTILE'],
               'alike': [1, 2, 3], 'invalid': ['FIRST', None]},
-    'vtype': {'valid': [None, 'C:ValueError', 'C:UserViolation', 'C:UserWarningV', 'C:RuntimeWarning'],
+    # B:...: beartype's own violation classes, i.e. the values the three specific options get when they are *not* passed
+    'vtype': {'valid': [None, 'C:ValueError', 'C:UserViolation', 'C:UserWarningV', 'C:RuntimeWarning',
+                        'B:BeartypeDoorHintViolation', 'B:BeartypeCallHintParamViolation', 'B:BeartypeCallHintReturnViolation'],
               'alike': [], 'invalid': ['C:int', 'x', 'I:ValueError', 0]},
     'skip': {'valid': ['T:', 'T:aa', 'T:aa,bb', 'T:bb,aa'], 'alike': ['L:aa', 'L:'], 'invalid': ['T:1x', 'N:1', 5]},
     # Tf / Tc: exactly what the numeric tower maps float / complex to; Xf / Xc: something else (conflicts with the tower option)
@@ -78,6 +80,9 @@ def _value(tok):
         if tok.startswith('E:'):
             cls, mem = tok[2:].split('.')
             return getattr(getattr(beartype, cls), mem)
+        if tok.startswith('B:'):
+            import beartype.roar as roar
+            return getattr(roar, tok[2:])
         if tok.startswith('C:') or tok.startswith('I:'):
             n = tok[2:]
             c = {'ValueError': ValueError, 'UserViolation': ops.UserViolation, 'UserWarningV': ops.UserWarningV,
@@ -199,6 +204,21 @@ def generate(rng, run, tier):
                 p = POOLS[OPT_POOL[name]]
                 if p['alike']:
                     kw[name] = rng.choice(p['alike'])
+        elif pool_kw and r < 0.45:
+            # an earlier one plus, spelt out, a value that it gets by derivation anyway: the specific violation classes (from
+            # violation_type or beartype's defaults) or the numeric tower's own overrides. Different arguments, same settings:
+            # the two configurations must be distinct, unequal objects
+            kw = dict(rng.choice(pool_kw))
+            vt = kw.get('violation_type')
+            which = rng.choice(['violation_door_type', 'violation_param_type', 'violation_return_type', 'hint_overrides'])
+            if which == 'hint_overrides':
+                kw['is_pep484_tower'] = True
+                kw['hint_overrides'] = rng.choice(['F:float=Tf', 'F:complex=Tc', 'F:float=Tf,complex=Tc'])
+            elif isinstance(vt, str) and vt.startswith('C:'):
+                kw[which] = vt
+            else:
+                kw[which] = {'violation_door_type': 'B:BeartypeDoorHintViolation', 'violation_param_type': 'B:BeartypeCallHintParamViolation',
+                             'violation_return_type': 'B:BeartypeCallHintReturnViolation'}[which]
         else:
             kw = gen_kw(rng, spice)
         pool_kw.append(kw)
